@@ -361,6 +361,64 @@ def judge_geff(case, wd, rng):
     return compare(case, tracks, "geff")
 
 
+def judge_df_with_seg(rng):
+    """A table whose nodes refer to a label image AND carry recorded positions (a pixel of
+    the mask, not its centroid): the mapped position columns are source values like any
+    other; imported through tracks_from_df or through a builder that was prepared first, the
+    position mapped as "pos" or with the legacy per-axis keys."""
+    import pandas as pd
+
+    from funtracks.import_export import CSVTracksBuilder, tracks_from_df
+
+    T = rng.randint(2, 4)
+    forest = gen.random_forest(rng, T, 2, "sparse", 0.2, min_nodes=2, p_empty=0.0)
+    seg = gen.make_segmentation(rng, forest, (10, 10))
+    parent = forest.parent()
+    rows = []
+    for n, t in forest.times.items():
+        px = np.argwhere(seg[t] == n)
+        y, x = px[rng.randrange(len(px))]
+        rows.append({"time": t, "id": n, "parent_id": parent.get(n, -1), "seg_id": n,
+                     "y": float(y), "x": float(x)})
+    df = pd.DataFrame(rows)
+    legacy = rng.random() < 0.5
+    nm = {"time": "time", "id": "id", "parent_id": "parent_id", "seg_id": "seg_id"}
+    if legacy:
+        nm.update({"y": "y", "x": "x"})
+    else:
+        nm["pos"] = ["y", "x"]
+    how = rng.choice(["function", "builder-prepared-first"])
+    key = f"C12/df+seg/{how}/{'legacy-axis-keys' if legacy else 'pos-list'}"
+    with warnings.catch_warnings():
+        warnings.simplefilter("ignore")
+        try:
+            if how == "function":
+                tracks = tracks_from_df(df, segmentation=seg.copy(), node_name_map=dict(nm))
+            else:
+                b = CSVTracksBuilder()
+                b.prepare(df, seg.copy())
+                b.node_name_map = dict(nm)
+                tracks = b.build(df, seg.copy())
+        except Exception as e:
+            return [("import-raised", f"table with label image refused ({how}, "
+                     f"{'legacy' if legacy else 'pos'} keys): {type(e).__name__}: "
+                     f"{str(e)[:200]}", key + f"/raised/{type(e).__name__}")], key
+    probs = []
+    if set(int(n) for n in tracks.graph.nodes) != set(forest.times) or \
+            set((int(u), int(v)) for u, v in tracks.graph.edges) != set(forest.edges):
+        probs.append(("nodes", "nodes / links differ from the table", key + "/graph"))
+    else:
+        for r in rows:
+            got = tracks.get_position(r["id"])
+            if not O.close(list(got), [r["y"], r["x"]], rel=0, abs_=0):
+                probs.append(("pos", f"node {r['id']}: position {list(got)} != recorded "
+                              f"{[r['y'], r['x']]} ({how}, "
+                              f"{'legacy per-axis keys' if legacy else 'pos list'})",
+                              key + "/pos"))
+                break
+    return probs, key
+
+
 def plan(tier, seed):
     n = 1200 if tier == "quick" else 12000
     return [{"kind": "cases", "n": n // 16, "seed": common.seed_for(PROP, tier, seed, i)}
@@ -373,6 +431,16 @@ def run_shard(spec):
     wd = env.workdir("c12")
     try:
         for i in range(spec["n"]):
+            if i % 4 == 0:
+                probs, k_ = judge_df_with_seg(rng)
+                acc["evaluations"] += 1
+                acc["counters"]["df-with-label-image"] = \
+                    acc["counters"].get("df-with-label-image", 0) + 1
+                acc["keys"].add(k_)
+                for clause, what, key in probs[:1]:
+                    acc["violations"].append({"clause": clause, "what": what, "key": key,
+                                              "replay": {"kind": "df+seg", "note":
+                                                         "re-run the shard seed"}})
             base = gen_table(rng)
             variants = [base]
             k = rng.choice(MALFORMS)
@@ -437,10 +505,19 @@ def floors(tier):
     return {"df-wellformed": 800, "df-malformed": 800, "geff-wellformed": 150,
             "geff-malformed": 100, "wellformed-with-id-0": 100,
             "mapped-lineage-with-division": 50,
-            "df-wellformed-nondefault-index": 200, "df-features-argument": 100}
+            "df-wellformed-nondefault-index": 200, "df-features-argument": 100,
+            "df-with-label-image": 150}
 
 
 def replay(doc):
+    if doc.get("kind") == "df+seg":
+        # the generator is tiny; replay = many fresh cases of the same route
+        rng = random.Random(12345)
+        for _ in range(300):
+            probs, _k = judge_df_with_seg(rng)
+            if probs:
+                return [{"clause": c, "what": w, "key": k} for c, w, k in probs]
+        return []
     case = doc["case"]
     case["rows"] = [{k: (np.nan if v is None else v) for k, v in r.items()}
                     for r in case["rows"]]
